@@ -152,7 +152,7 @@ Section WithV.
       - split; [auto|]. split; [exact Hnd|]. apply mem_key_false. exact Emem. }
     destruct Hkept as [Hsub [Hnd' Hnin]].
     split; [exact Hh|]. cbn [hdr_of entries keys_e]. split.
-    - rewrite map_app. cbn [map fst]. apply NoDup_app_single; assumption.
+    - unfold keys_e. cbn [entries]. rewrite map_app. cbn [map fst]. apply NoDup_app_single; assumption.
     - intros k' c' vs' Hin. apply in_app_iff in Hin as [Hin|[Heq|[]]].
       + apply (Hent _ _ _ (Hsub _ Hin)).
       + injection Heq as <- <- <-. split; [exact Ecv|]. split; [exact Hsl | congruence].
@@ -196,7 +196,7 @@ Section WithV.
       cbn [apply op_dom] in *.
     - destruct Hd as [H1 H2]. apply (get_subset_valid veqb vnone veqb_refl e r dim idx Hv Hn H1 H2 H).
     - destruct Hd as [Hall Hdom].
-      apply (from_sequence_valid veqb vnone veqb_refl _ dim affine slice_dim r); [|exact Hdom | exact H].
+      apply (from_sequence_valid veqb vnone veqb_refl (before ++ e :: after) dim affine slice_dim r); [|exact Hdom | exact H].
       intros x Hx. apply in_app_iff in Hx as [Hx|[<-|Hx]]; [apply Hall; apply in_app_iff; left; exact Hx | split; assumption |
         apply Hall; apply in_app_iff; right; exact Hx].
     - apply (filter_meta_valid f e r Hv Hn H).
